@@ -20,6 +20,7 @@ Definition kR := 0. Definition kW := 1. Definition kCAS := 3. Definition kLock :
 Definition kMark := 7. Definition kWalk := 8. Definition kUnlock := 6.
 Definition cellState := 0. Definition cellInproc := 1. Definition cellCstate := 2.
 Definition cellWg := -3. Definition cellMark := -4. Definition cellMutex := -2. Definition cellWalk := -5.
+Definition cellSel := -6.   (* readMore's select: Lock a = 1 took the recvNotifyCh token, a = 2 closeNotifyCh closed; Busy: parked *)
 Definition b2z (b : bool) : Z := if b then 1 else 0.
 
 Definition cev (s : est) (c : cpc) : option event :=
@@ -41,6 +42,7 @@ Definition step_ev (s : est) (w : who) : option event :=
            | EIdle => match inbox s with [] => None | EData _ :: _ => ev_ kMark cellMark 1 0 0 | EClose :: _ => ev_ kMark cellMark 2 0 0 end
            | EHalf => ev_ kCAS cellState c_streamOpened c_streamHalfClosed (b2z (st s =? c_streamOpened))
            | EChk => ev_ kR cellState (st s) 0 0
+           | ENotify => ev_ kMark cellMark 16 0 0  (* scheduling point in front of asyncNotify(s.recvNotifyCh) *)
            | ECas => ev_ kCAS cellInproc 0 1 (b2z (inproc s =? 0))
            | EWgAdd => ev_ kMark cellMark 14 0 0   (* harness scheduling point in front of wg.Add(1) *)
            | _ => None
@@ -56,6 +58,10 @@ Definition step_ev (s : est) (w : who) : option event :=
                           | GLdCs => ev_ kR cellCstate (cstate s) 0 0
                           | GCas => ev_ kCAS cellInproc 0 1 (b2z (inproc s =? 0))
                           | GCbClose c _ | GClose c => cev s c
+                          | GRdPark _ _ =>
+                              if rnotify s then (if cnotify s && hd false (picks s) then ev_ kLock cellSel 2 0 0 else ev_ kLock cellSel 1 0 0)
+                              else if cnotify s then ev_ kLock cellSel 2 0 0 else ev_ kBusy cellSel 0 0 0
+                          | GRdLd _ => ev_ kR cellState (st s) 0 0
                           | _ => None
                           end
               end
@@ -150,11 +156,12 @@ Fixpoint first_diff {A} (eqb : A -> A -> bool) (a b : list A) (n : nat) : option
 
 Record scase := {
   s_cb0 : bool; s_inb : list ev; s_ncl : nat; s_script : list (nat * nat); s_sy : list nat; s_ups : list (list (list Z));
+  s_needs : list nat; s_picks : list bool;
   s_sched : list who;
   s_events : list (option event);           (* observed, one per implementation step *)
   s_offers : list (list Z);                 (* observed: what each OnData invocation found in recvBuf *)
   s_consumed : list Z;                      (* observed: concatenation of what the OnData calls read *)
-  s_final : list Z;                         (* observed: state, inproc, cstate, in-table, OnLocalClose, OnRemoteClose, close elements sent *)
+  s_final : list Z;                         (* observed: state, inproc, cstate, in-table, OnLocalClose, OnRemoteClose, close elements sent, data elements sent, closeNotifyCh closed *)
   s_recv : list Z; s_pend : list Z;         (* observed: bytes left in recvBuf / in pendingData *)
   s_finished : bool;
   s_ures : list (list bool) }.              (* observed: per user thread, did each Flush return nil *)                      (* every implementation thread ran to completion *)
@@ -170,7 +177,7 @@ Definition model_quiescent (s : est) (setter : bool) : bool :=
    6 the implementation's threads all finished but a model thread still has steps to take;
    7 the results of the user Flush calls differ *)
 Definition check_case (c : scase) : Z * option nat :=
-  let s0 := init_sy (s_cb0 c) (s_inb c) (s_ncl c) (s_script c) (s_ups c) (s_sy c) in
+  let s0 := init_rd (s_cb0 c) (s_inb c) (s_ncl c) (s_script c) (s_ups c) (s_sy c) (s_needs c) (s_picks c) in
   let '(tr, s) := btrace (s_sched c) s0 in
   match first_diff oev_eqb tr (s_events c) 0 with
   | Some n => (1, Some n)
@@ -181,7 +188,8 @@ Definition check_case (c : scase) : Z * option nat :=
                                   (* the callbacks are only observable when installed *)
                                   (if cbset s then nlocal s else 0); (if cbset s then nremote s else 0);
                                   Z.of_nat (length (filter (fun e => match e with EClose => true | _ => false end) (out s)));
-                                  Z.of_nat (length (filter (fun e => match e with EData _ => true | _ => false end) (out s)))]
+                                  Z.of_nat (length (filter (fun e => match e with EData _ => true | _ => false end) (out s)));
+                                  b2z (cnotify s)]   (* closeNotifyCh is closed *)
                            (s_final c)) then (4, None)
     else if negb (list_eqb Z.eqb (recv s) (s_recv c) && list_eqb Z.eqb (concat (pending s)) (s_pend c)) then (5, None)
     else if s_finished c && negb (model_quiescent s false) then (6, None)
@@ -198,7 +206,7 @@ Fixpoint mismatches_from (n : nat) (cs : list scase) : list (nat * Z * option na
 Definition mismatches := mismatches_from 0.
 
 (* diagnostics for replay files *)
-Definition model_trace (c : scase) := fst (btrace (s_sched c) (init_sy (s_cb0 c) (s_inb c) (s_ncl c) (s_script c) (s_ups c) (s_sy c))).
+Definition model_trace (c : scase) := fst (btrace (s_sched c) (init_rd (s_cb0 c) (s_inb c) (s_ncl c) (s_script c) (s_ups c) (s_sy c) (s_needs c) (s_picks c))).
 Definition model_final (c : scase) :=
-  let s := snd (btrace (s_sched c) (init_sy (s_cb0 c) (s_inb c) (s_ncl c) (s_script c) (s_ups c) (s_sy c))) in
+  let s := snd (btrace (s_sched c) (init_rd (s_cb0 c) (s_inb c) (s_ncl c) (s_script c) (s_ups c) (s_sy c) (s_needs c) (s_picks c))) in
   (offers s, consumed s, [st s; inproc s; cstate s; b2z (intable s); nlocal s; nremote s], recv s, concat (pending s)).
